@@ -36,6 +36,8 @@ impl TraitHandler for DebugStructHandler {
 
         let name = type_attribute.name.to_ident_by_ident(&ast.ident);
 
+        let raw_string = super::common::helper_ident(ast, "Educe__RawString");
+
         let mut debug_types: Vec<&Type> = Vec::new();
 
         let mut builder_token_stream = proc_macro2::TokenStream::new();
@@ -45,7 +47,7 @@ impl TraitHandler for DebugStructHandler {
             builder_token_stream.extend(if let Some(name) = name {
                 quote!(let mut builder = f.debug_struct(::core::stringify!(#name));)
             } else {
-                super::common::create_debug_map_builder()
+                super::common::create_debug_map_builder(&raw_string)
             });
 
             if let Data::Struct(data) = &ast.data {
@@ -88,7 +90,7 @@ impl TraitHandler for DebugStructHandler {
                         builder_token_stream.extend(if name.is_some() {
                             quote! (builder.field(::core::stringify!(#key), &arg);)
                         } else {
-                            quote! (builder.entry(&Educe__RawString(::core::stringify!(#key)), &arg);)
+                            quote! (builder.entry(&#raw_string(::core::stringify!(#key)), &arg);)
                         });
                     } else {
                         debug_types.push(ty);
@@ -96,7 +98,7 @@ impl TraitHandler for DebugStructHandler {
                         builder_token_stream.extend(if name.is_some() {
                             quote! (builder.field(::core::stringify!(#key), #borrow self.#field_name);)
                         } else {
-                            quote! (builder.entry(&Educe__RawString(::core::stringify!(#key)), #borrow self.#field_name);)
+                            quote! (builder.entry(&#raw_string(::core::stringify!(#key)), #borrow self.#field_name);)
                         });
                     }
 
